@@ -258,7 +258,7 @@ LEVELS = {
 
 NOT_APPLICABLE = {}
 
-TIES = {'C01': ['TieSettle'], 'C02': ['TieSettle', 'TieSettleMsg'], 'C03': ['TieOracleMsg'], 'C05': ['TieOracleEnd'], 'C06': ['TieOracleArith', 'TieSettle'], 'C08': ['TieOracleArith', 'TieOracleMsg'], 'C09': ['TieSettleMsg'], 'C10': ['TieSettle', 'TieOracleArith', 'TieSettleMsg'], 'C11': ['TieSettle'], 'C12': ['TieSettleMsg'], 'C13': ['TieSettle', 'TieSettleMsg'], 'C14': ['TieOracleEnd'], 'C15': ['TieOracleArith', 'TieOracleEnd'], 'C16': ['TieFee']}
+TIES = {'C01': ['TieSettle'], 'C02': ['TieSettle', 'TieSettleMsg'], 'C03': ['TieOracleMsg', 'TieAnte'], 'C04': ['TieAnte'], 'C05': ['TieOracleEnd'], 'C06': ['TieOracleArith', 'TieSettle'], 'C08': ['TieOracleArith', 'TieOracleMsg'], 'C09': ['TieSettleMsg'], 'C10': ['TieSettle', 'TieOracleArith', 'TieSettleMsg'], 'C11': ['TieSettle'], 'C12': ['TieSettleMsg'], 'C13': ['TieSettle', 'TieSettleMsg'], 'C14': ['TieOracleEnd'], 'C15': ['TieOracleArith', 'TieOracleEnd'], 'C16': ['TieFee']}
 for _k, _v in TIES.items():
     PROPS[_k]["ties"] = _v
 
